@@ -15,6 +15,7 @@
 //     that (session, type) in the whole case);
 //   - the table after all threads have finished: per (session, type) exactly the live subscriptions
 //     of all threads together.
+//
 // These are judged in Coq (judge_conc).  The threads run through the programs in rounds: a spinning
 // barrier lets all of them enter a round together (harness only: it merely selects schedules), so
 // that the first subscriptions to a session created in that round really collide.
@@ -299,6 +300,13 @@ func concChildMain() {
 		os.Exit(3)
 	}
 	var o Obs
+	if c.Kind == "fani" {
+		basePatience = 10 * time.Second
+		o = slowChildMain(c)
+		b, _ := json.Marshal(o)
+		os.Stdout.Write(append(b, '\n'))
+		return
+	}
 	for attempt := 0; attempt < 3; attempt++ {
 		var rep bool
 		o, rep = runConcOnce(c)
